@@ -251,3 +251,74 @@ def approx(a, b, tol, scale=None):
     if scale is None:
         scale = max(float(numpy.max(numpy.abs(a))), float(numpy.max(numpy.abs(b))))
     return err <= tol * max(scale, 1e-300), err
+
+
+# --------------------------------------------------------------------------
+# E-fault: exception injected at the k-th library function call
+# --------------------------------------------------------------------------
+class Injected(Exception):
+    """Harness-injected fault."""
+
+
+def _fault_hook(match, on_point):
+    """Profile hook enumerating fault points = entries into library functions.  Entries that
+    happen while a context manager's __exit__ is running (the restoring mechanism itself)
+    are not fault points: the properties quantify over exceptions raised INSIDE a context."""
+    exits = set()
+
+    def prof(frame, event, arg):
+        if match not in frame.f_code.co_filename:
+            return
+        if event == "call":
+            if frame.f_code.co_name == "__exit__":
+                exits.add(id(frame))
+                return
+            if exits:
+                return
+            on_point(frame)
+        elif event == "return":
+            exits.discard(id(frame))
+    return prof
+
+
+def count_lib_calls(f, match="/quantarhei/"):
+    """Run f() and count the fault points (entries into library functions)."""
+    import sys
+    cnt = [0]
+    names = []
+
+    def on_point(frame):
+        cnt[0] += 1
+        names.append(frame.f_code.co_name)
+    sys.setprofile(_fault_hook(match, on_point))
+    try:
+        f()
+    finally:
+        sys.setprofile(None)
+    return cnt[0], names
+
+
+def run_with_fault(f, k, match="/quantarhei/"):
+    """Run f() and raise Injected inside it at the k-th (1-based) fault point.  The exception
+    surfaces in the caller of that function, exactly where a real failure of the callee
+    would.  Returns (raised: bool, where: str|None, exc)."""
+    import sys
+    cnt = [0]
+    where = [None]
+
+    def on_point(frame):
+        cnt[0] += 1
+        if cnt[0] == k:
+            where[0] = "%s:%s" % (os.path.basename(frame.f_code.co_filename),
+                                  frame.f_code.co_name)
+            raise Injected("fault #%d at %s" % (k, where[0]))
+    sys.setprofile(_fault_hook(match, on_point))
+    try:
+        f()
+        return False, where[0], None
+    except Injected as e:
+        return True, where[0], e
+    except Exception as e:          # the library converted / replaced the injected fault
+        return True, where[0], e
+    finally:
+        sys.setprofile(None)
